@@ -140,6 +140,15 @@ def families(tier):
         for o in ([names] if nb == 1 else [names, names[::-1]]):
             out.append(dict(prop='C06', family='c06.mutex.same_named_parallel_handlers', id=f'c06/samename-s{int(slow_first)}-{kinds[0]}{kinds[1]}-n{nb}-o{"".join(o)}', cfg=cfg, params=dict(first_b='samename', par_a=True, par_b=False),
                             scn=dict(buses={b: dict(parallel=(b == 'A')) for b in names}, order=o, handlers=hs, main=main, actors=[], forwards=[], settle=3.0)))
+    # a handler of A pumps worker bus B by hand with the public EventBus.step() (a re-entrant use of the global lock), then goes on working while an event waits on
+    # bus C: leaving the nested step must not hand the lock to C
+    for nsteps, hb, o in itertools.product((1, 2), ('ret', 'pause'), (['A', 'B', 'C'], ['C', 'B', 'A'])):
+        hs = [dict(bus='A', pat='P', name='hp', prog=[('disp', 'C', 'X2', 'ff'), ('disp', 'B', 'C', 'ff')] + [('step', 'B')] * nsteps + [('pause',), ('pause',)]),
+              dict(bus='B', pat='C', name='hcB', prog=[('ret', 1)] if hb == 'ret' else [('pause',), ('ret', 1)]), dict(bus='C', pat='X', name='hxC', prog=[('pause',)]),
+              dict(bus='A', pat='X', name='hxA', prog=[('pause',)])]
+        main = [('disp', 'C', 'X', 'await'), ('disp', 'A', 'P', 'ff'), ('disp', 'A', 'X3', 'ff')]
+        out.append(dict(prop='C06', family='c06.mutex.handler_pumps_another_bus', id=f'c06/pump-n{nsteps}-{hb}-o{"".join(o)}', cfg=dict(cfg, window=0.3), params=dict(first_b='pump', par_a=False, par_b=False),
+                        scn=dict(buses={'A': {}, 'B': {}, 'C': {}}, order=o, handlers=hs, main=main, actors=[], forwards=[], settle=3.0)))
     # the grammar-generated corpus shared by the bus properties (vsched/gen.py), judged by this property's oracle
     from .. import gen
     out += gen.family('C06', tier, params=dict(first_b='generated', par_a=None, par_b=None), timeouts=(None,))
